@@ -1,227 +1,33 @@
-(* C04 (balance half) on the fragment of FragB.v: text lines, .Bm/.Em/.Sm, argument-less .P and display blocks .Bd/.Ed
-   nested to any depth; LaTeX, fragment mode, any world.  Mirrors FragB.v with the brace machine of TokL.v. *)
+(* C04 (balance half) on the sub-language of FragB.v: text lines, .Bm/.Em/.Sm, .P with or without title, display blocks
+   .Bd/.Ed nested to any depth; LaTeX, fragment mode, any world.  Mirrors FragB.v with the brace machine of TokL.v. *)
 From Coq Require Import List NArith ZArith Bool Lia Arith String.
 Import ListNotations.
-Require Import Latex Exp Proc1 Proc2 Proc3 Ctl Loop Eqd Tok TokL Inv InvL.
+Require Import Latex Exp Proc1 Proc2 Proc3 Ctl Loop Eqd Tok TokL Inv InvL EqFL InvIL.
 Open Scope N_scope.
 Arguments runL : simpl never.
 Arguments rev : simpl never.
 Arguments flat : simpl never.
-
-(* equality on everything the three handlers and the dispatcher never change *)
-Definition nf (s : st) : st :=
-  s <| buf := [] |> <| wout := [] |> <| ws := false |> <| sinline := [] |> <| par := false |> <| diags := [] |>
-    <| macro := [] |> <| args := [] |> <| line := 0%nat |> <| text := [] |> <| prev := [] |> <| ids := [] |>
-    <| elided := false |> <| quiet := false |>.
-Definition eqf (a b : st) : Prop := nf a = nf b.
-Infix "~=" := eqf (at level 70).
-Lemma eqf_refl s : s ~= s. Proof. reflexivity. Qed.
-Lemma eqf_trans a b c : a ~= b -> b ~= c -> a ~= c. Proof. unfold eqf; congruence. Qed.
-Lemma nf_nd s : nf (nd s) = nf s. Proof. destruct s; reflexivity. Qed.
-Lemma eqd_eqf a b : a ~~ b -> a ~= b.
-Proof. intro H. unfold eqf. rewrite <- (nf_nd a), <- (nf_nd b). unfold eqd in H. rewrite H. reflexivity. Qed.
-Lemma w_eqf x s : w x s ~= s. Proof. unfold w. destruct (par s); destruct s; reflexivity. Qed.
-Lemma wl_eqf l s : wl l s ~= s. Proof. induction l as [|x r IH]; [reflexivity|]. cbn. eapply eqf_trans; [apply w_eqf|exact IH]. Qed.
-Lemma eqf_get {A} (g : st -> A) a b : (forall s, g (nf s) = g s) -> a ~= b -> g a = g b.
-Proof. intros Hg H. rewrite <- (Hg a), <- (Hg b). unfold eqf in H. rewrite H. reflexivity. Qed.
-
-Lemma set_par_eqf b s : s <| par := b |> ~= s. Proof. destruct s; reflexivity. Qed.
-Lemma set_ws_eqf b s : s <| ws := b |> ~= s. Proof. destruct s; reflexivity. Qed.
-Lemma upd_buf_eqf f s : s <| buf ::= f |> ~= s. Proof. destruct s; reflexivity. Qed.
-Lemma upd_sinline_eqf f s : s <| sinline ::= f |> ~= s. Proof. destruct s; reflexivity. Qed.
-Lemma set_prev_eqf b s : s <| prev := b |> ~= s. Proof. destruct s; reflexivity. Qed.
-Lemma fmt_eqf a b : a ~= b -> fmt a = fmt b. Proof. apply eqf_get. intro; reflexivity. Qed.
-Lemma mtags_eqf a b : a ~= b -> mtags a = mtags b. Proof. apply eqf_get. intro; reflexivity. Qed.
-Lemma after_handler_eqf n s : after_handler n s ~= s.
-Proof. unfold after_handler. destruct (elided s); [destruct s; reflexivity|]. destruct (is_control_name n); [reflexivity|apply set_prev_eqf]. Qed.
-Lemma push_inline_eqf tag id r s : has_cur s = true -> push_inline tag id r s ~= s.
-Proof. intro Hc. unfold push_inline, mk_scope. destruct (cloc s) as [[[l n] f]|]; [apply upd_sinline_eqf|].
-  rewrite Hc. apply upd_sinline_eqf. Qed.
-
-Lemma begin_paragraph_eqf s : fmt s = FL -> begin_paragraph s ~= s.
-Proof. intro Hf. unfold begin_paragraph. rewrite Hf. apply eqf_refl. Qed.
-Lemma reopen_spanning_eqf s : fmt s = FL -> markup_okL (mtags s) -> reopen_spanning s ~= s.
-Proof. intros Hf Hm. unfold reopen_spanning. destruct (reopen_foldL (mtags s) (sinline s) Hm s Hf eq_refl) as [x [Ex _]]. rewrite Ex. apply wl_eqf. Qed.
-Lemma begin_phrasing_eqf ns s : fmt s = FL -> markup_okL (mtags s) -> begin_phrasing ns s ~= s.
-Proof. intros Hf Hm. unfold begin_phrasing. destruct (par s).
-  - destruct (ws s && negb ns); [apply w_eqf|apply eqf_refl].
-  - eapply eqf_trans; [apply set_par_eqf|]. destruct (negb (inl s) && negb (scope_verse s)).
-    + pose proof (begin_paragraph_eqf s Hf) as H. eapply eqf_trans; [|exact H].
-      apply reopen_spanning_eqf; [rewrite (fmt_eqf _ _ H); exact Hf|rewrite (mtags_eqf _ _ H); exact Hm].
-    + destruct (negb (inl s)); [apply eqd_eqf, err_eqd|apply eqf_refl]. Qed.
-
-Lemma process_text_eqf s : asis s = false -> fmt s = FL -> markup_okL (mtags s) -> process_text s ~= s.
-Proof. intros Has Hf Hm. unfold process_text. destruct (process s); [|apply eqf_refl]. rewrite Has. cbn [negb].
-  set (s1 := if negb (par s) then _ else _).
-  assert (E1 : s1 ~= s).
-  { unfold s1. destruct (negb (par s)).
-    - pose proof (eqf_trans _ _ _ (set_par_eqf true (begin_paragraph s)) (begin_paragraph_eqf s Hf)) as H.
-      eapply eqf_trans; [|exact H]. apply reopen_spanning_eqf; [rewrite (fmt_eqf _ _ H); exact Hf|rewrite (mtags_eqf _ _ H); exact Hm].
-    - destruct (ws s); [apply upd_buf_eqf|apply eqf_refl]. }
-  clearbody s1. pose proof (render_text_eqd (text s1) s1) as He. destruct (render_text (text s1) s1) as [t s2]. cbn [snd] in He.
-  set (s3 := match t with [] => s2 | _ => _ end).
-  assert (E3 : s3 ~~ s2). { unfold s3. destruct t; [reflexivity|]. destruct (has_blank_line _); [apply err_eqd|reflexivity]. }
-  eapply eqf_trans; [apply set_ws_eqf|]. eapply eqf_trans; [apply upd_buf_eqf|].
-  eapply eqf_trans; [apply eqd_eqf; exact E3|]. eapply eqf_trans; [apply eqd_eqf; exact He|exact E1]. Qed.
-
-Lemma store_id_eqf id i s : store_id id i s ~= s.
-Proof. unfold store_id. set (s1 := if has_key id (ids s) then _ else s).
-  assert (E : s1 ~= s).
-  { unfold s1. destruct (has_key id (ids s)); [|apply eqf_refl]. unfold err. cbn. destruct s; reflexivity. }
-  eapply eqf_trans; [|exact E]. destruct s1; reflexivity. Qed.
-
-Lemma macro_bm_eqf s : fmt s = FL -> markup_okL (mtags s) -> has_cur s = true -> macro_bm s ~= s.
-Proof. intros Hf Hm Hc. unfold macro_bm.
-  pose proof (parse_opts_eqd specOptBm (args s) s) as E1. destruct (parse_opts specOptBm (args s) s) as [o s1]. cbn [snd] in E1.
-  pose proof (opt_render_eqd "id" o s1) as E2. pose proof (opt_render_escapedL "id" o s1) as Hid.
-  destruct (opt_render "id" o s1) as [id s2]. cbn [fst snd] in *.
-  assert (E : s2 ~~ s) by (eapply eqd_trans; eauto). specialize (Hid ltac:(rewrite (Inv.fmt_eqd _ _ E1); exact Hf)).
-  assert (F2 : s2 ~= s) by (apply eqd_eqf; exact E).
-  destruct (process s2); cbn [negb]; [|destruct id; [exact F2|eapply eqf_trans; [apply store_id_eqf|exact F2]]].
-  set (s3 := begin_phrasing (flag "ns" o) s2 <| ws := false |>).
-  assert (F3 : s3 ~= s).
-  { eapply eqf_trans; [apply set_ws_eqf|]. eapply eqf_trans; [|exact F2].
-    apply begin_phrasing_eqf; [rewrite (fmt_eqf _ _ F2); exact Hf|rewrite (mtags_eqf _ _ F2); exact Hm]. }
-  clearbody s3.
-  set (r4 := match opt "t" o with Some t => _ | None => _ end).
-  assert (E4 : snd r4 ~~ s3).
-  { unfold r4. destruct (opt "t" o) as [t|]; [|reflexivity].
-    pose proof (inlines_text_eqd t s3) as H. destruct (inlines_text t s3) as [tg s']. cbn [snd] in *.
-    destruct (has_key tg (mtags s')); [exact H|]. eapply eqd_trans; [apply err_eqd|exact H]. }
-  destruct r4 as [tag s4]. cbn [snd] in E4.
-  assert (F4 : s4 ~= s) by (eapply eqf_trans; [apply eqd_eqf; exact E4|exact F3]).
-  assert (F4' : push_inline tag id (flag "r" o) s4 ~= s) by (eapply eqf_trans; [apply push_inline_eqf; rewrite (eqf_get has_cur _ _ (fun _ => eq_refl) F4); exact Hc|exact F4]).
-  set (s4' := push_inline tag id (flag "r" o) s4) in *. clearbody s4'.
-  unfold begin_markup_block. rewrite (fmt_eqf _ _ F4'), Hf.
-  destruct (Hm tag id Hid) as [[x [Ex Hx]] _]. rewrite !Ex by (apply (mtags_eqf _ _ F4')).
-  set (s5 := w x s4').
-  assert (F5 : s5 ~= s) by (eapply eqf_trans; [apply w_eqf|exact F4']).
-  clearbody s5. destruct (po_args o) as [|a0 al]; [exact F5|]. destruct (negb (inl s5)); [eapply eqf_trans; [apply eqd_eqf, err_eqd|exact F5]|].
-  pose proof (render_args_eqd (a0 :: al) s5) as Er. destruct (render_args (a0 :: al) s5) as [t s']. cbn [snd] in Er.
-  eapply eqf_trans; [apply w_eqf|]. eapply eqf_trans; [apply eqd_eqf; exact Er|exact F5]. Qed.
-
-(* macroEm: besides what ~= ignores, it pops the innermost inline scope when there is one *)
-Lemma macro_em_eqf s : fmt s = FL -> markup_okL (mtags s) ->
-  macro_em s ~= s /\ (process s = true -> sinline (macro_em s) = pop (sinline s)).
-Proof. intros Hf Hm. unfold macro_em. destruct (process s); cbn [negb]; [|split; [apply eqf_refl|discriminate]].
-  pose proof (parse_opts_eqd specOptEm (args s) s) as E1. destruct (parse_opts specOptEm (args s) s) as [o s1]. cbn [snd] in E1.
-  assert (F1 : s1 ~= s) by (apply eqd_eqf; exact E1).
-  assert (Hsi1 : sinline s1 = sinline s) by (apply (eqd_get sinline _ _ (fun _ => eq_refl) E1)).
-  destruct (top (sinline s1)) as [sc|] eqn:Etop.
-  2:{ split; [eapply eqf_trans; [apply eqd_eqf, err_eqd|exact F1]|]. intros _.
-      rewrite (eqd_get sinline _ _ (fun _ => eq_refl) (err_eqd _ s1)), Hsi1. rewrite Hsi1 in Etop.
-      unfold top in Etop. destruct (sinline s) as [|a l]; [reflexivity|]. exfalso. clear -Etop.
-      revert a Etop. induction l as [|b l IH]; intros a H; [discriminate|]. exact (IH b H). }
-  set (s2 := s1 <| sinline ::= pop |>). assert (F2 : s2 ~= s) by (eapply eqf_trans; [apply upd_sinline_eqf|exact F1]).
-  set (s3 := match opt "t" o with Some t => _ | None => _ end).
-  assert (E3 : s3 ~~ s2).
-  { unfold s3. destruct (opt "t" o) as [t|].
-    - pose proof (inlines_text_eqd t s2) as H. destruct (inlines_text t s2) as [tx s']. cbn [snd] in H.
-      destruct (str_eqb tx (sc_tag sc)); [exact H|]. eapply eqd_trans; [apply err_eqd|exact H].
-    - destruct (sc_req sc); [apply err_eqd|reflexivity]. }
-  set (r4 := match po_args o with [] => _ | a :: r => _ end).
-  assert (E4 : snd r4 ~~ s2 /\ textualL (fst (fst r4))).
-  { unfold r4. destruct (po_args o) as [|a r]; [split; [exact E3|apply textualL_nil]|].
-    set (u := if negb (inl s3) then (true, s3) else is_punct_arg a s3).
-    assert (Eu : snd u ~~ s3) by (unfold u; destruct (negb (inl s3)); [reflexivity|apply is_punct_arg_eqd]).
-    destruct u as [use s']. cbn [snd] in Eu. destruct use; [|split; [eapply eqd_trans; eauto|apply textualL_nil]].
-    pose proof (render_text_eqd a s') as H. destruct (render_text_escaped a s') as [t Et]. destruct (render_text a s') as [p s'']. cbn [fst snd] in *.
-    split; [eapply eqd_trans; [exact H|eapply eqd_trans; eauto]|].
-    rewrite Et, (escape_fn_FL s'); [apply latex_escape_textual|]. rewrite (Inv.fmt_eqd _ _ Eu), (Inv.fmt_eqd _ _ E3), (fmt_eqf _ _ F2). exact Hf. }
-  destruct r4 as [[punct rest] s4]. cbn [fst snd] in E4. destruct E4 as [E4 Hpunct].
-  assert (F4 : s4 ~= s) by (eapply eqf_trans; [apply eqd_eqf; exact E4|exact F2]).
-  assert (Hsi4 : sinline s4 = pop (sinline s)) by (rewrite (eqd_get sinline _ _ (fun _ => eq_refl) E4); unfold s2; cbn; rewrite Hsi1; reflexivity).
-  set (s5 := if par s4 then end_markup_block (sc_tag sc) punct s4 else w punct s4).
-  assert (F5 : exists c, s5 = wl c s4).
-  { unfold s5. destruct (par s4); [|exists [punct]; reflexivity]. unfold end_markup_block. rewrite (fmt_eqf _ _ F4), Hf.
-    destruct (Hm (sc_tag sc) [] (ex_intro _ [] eq_refl)) as [_ Hc]. destruct (Hc punct Hpunct) as [x [Ex _]].
-    rewrite Ex by apply (mtags_eqf _ _ F4). exists [x]; reflexivity. }
-  destruct F5 as [c5 F5]. clearbody s5. subst s5.
-  assert (Hsw : forall c s, sinline (wl c s) = sinline s).
-  { intros c s'. change (sinline (wl c s')) with (let '(_, _, _, (_, _, si, _)) := view (wl c s') in si). rewrite view_wl. reflexivity. }
-  destruct rest as [|a0 al].
-  - split; [eapply eqf_trans; [apply set_ws_eqf|]; eapply eqf_trans; [apply wl_eqf|exact F4]|].
-    intros _. change (sinline (wl c5 s4 <| ws := negb (flag "ns" o) |>)) with (sinline (wl c5 s4)). rewrite Hsw. exact Hsi4.
-  - destruct (negb (inl (wl c5 s4))).
-    + split; [eapply eqf_trans; [apply set_ws_eqf|]; eapply eqf_trans; [apply eqd_eqf, err_eqd|]; eapply eqf_trans; [apply wl_eqf|exact F4]|].
-      intros _. change (sinline (err "useless args in macro Em" (wl c5 s4) <| ws := negb (flag "ns" o) |>)) with (sinline (err "useless args in macro Em" (wl c5 s4))).
-      rewrite (eqd_get sinline _ _ (fun _ => eq_refl) (err_eqd _ _)), Hsw. exact Hsi4.
-    + pose proof (render_args_eqd (a0 :: al) (wl c5 s4)) as Er. destruct (render_args (a0 :: al) (wl c5 s4)) as [t s']. cbn [snd] in Er.
-      split; [eapply eqf_trans; [apply set_ws_eqf|]; eapply eqf_trans; [apply w_eqf|]; eapply eqf_trans; [apply eqd_eqf; exact Er|]; eapply eqf_trans; [apply wl_eqf|exact F4]|].
-      intros _. change (sinline (w t s' <| ws := negb (flag "ns" o) |>)) with (sinline (wl [t] s')). rewrite Hsw.
-      rewrite (eqd_get sinline _ _ (fun _ => eq_refl) Er), Hsw. exact Hsi4.
-Qed.
-
-Lemma macro_sm_eqf s : fmt s = FL -> markup_okL (mtags s) -> macro_sm s ~= s.
-Proof. intros Hf Hm. unfold macro_sm.
-  pose proof (parse_opts_eqd specOptSm (args s) s) as E1. destruct (parse_opts specOptSm (args s) s) as [o s1]. cbn [snd] in E1.
-  pose proof (opt_render_eqd "id" o s1) as E2. pose proof (opt_render_escapedL "id" o s1) as Hid.
-  destruct (opt_render "id" o s1) as [id s2]. cbn [fst snd] in *.
-  assert (E : s2 ~~ s) by (eapply eqd_trans; eauto). specialize (Hid ltac:(rewrite (Inv.fmt_eqd _ _ E1); exact Hf)).
-  assert (F2 : s2 ~= s) by (apply eqd_eqf; exact E).
-  destruct (process s2); cbn [negb]; [|destruct id; [exact F2|eapply eqf_trans; [apply store_id_eqf|exact F2]]].
-  destruct (po_args o) as [|a0 al]; [eapply eqf_trans; [apply eqd_eqf, err_eqd|exact F2]|].
-  set (r3 := if Nat.ltb 1 (List.length (a0 :: al)) then get_close_punct (a0 :: al) s2 else (a0 :: al, [], s2)).
-  assert (H3 : snd r3 ~~ s2 /\ textualL (snd (fst r3))).
-  { unfold r3. destruct (Nat.ltb 1 (List.length (a0 :: al))); [|split; [reflexivity|apply textualL_nil]].
-    split; [apply get_close_punct_eqd|apply get_close_punct_textualL; rewrite (fmt_eqf _ _ F2); exact Hf]. }
-  destruct r3 as [[a punct] s3]. cbn [fst snd] in H3. destruct H3 as [E3 Hpunct].
-  assert (F3 : s3 ~= s) by (eapply eqf_trans; [apply eqd_eqf; exact E3|exact F2]).
-  set (s4 := begin_phrasing (flag "ns" o) s3).
-  assert (F4 : s4 ~= s) by (eapply eqf_trans; [|exact F3]; apply begin_phrasing_eqf; [rewrite (fmt_eqf _ _ F3); exact Hf|rewrite (mtags_eqf _ _ F3); exact Hm]).
-  clearbody s4.
-  set (r5 := match opt "t" o with Some t => _ | None => _ end).
-  assert (E5 : snd r5 ~~ s4).
-  { unfold r5. destruct (opt "t" o) as [t|]; [|reflexivity].
-    pose proof (inlines_text_eqd t s4) as H. destruct (inlines_text t s4) as [tg s']. cbn [snd] in *.
-    destruct (has_key tg (mtags s')); [exact H|]. eapply eqd_trans; [apply err_eqd|exact H]. }
-  destruct r5 as [tag s5]. cbn [snd] in E5.
-  assert (F5 : s5 ~= s) by (eapply eqf_trans; [apply eqd_eqf; exact E5|exact F4]).
-  unfold begin_markup_block. rewrite (fmt_eqf _ _ F5), Hf.
-  destruct (Hm tag id Hid) as [[x [Ex Hx]] Hc]. rewrite (Ex s5 (mtags_eqf _ _ F5)).
-  pose proof (render_args_eqd a (w x s5)) as E7. destruct (render_args a (w x s5)) as [t s7]. cbn [snd] in E7.
-  assert (F7 : s7 ~= s) by (eapply eqf_trans; [apply eqd_eqf; exact E7|]; eapply eqf_trans; [apply w_eqf|exact F5]).
-  unfold end_markup_block. rewrite Inv.fmt_w, (fmt_eqf _ _ F7), Hf.
-  destruct (Hc punct Hpunct) as [y [Ey Hy]]. rewrite (Ey (w t s7)) by (rewrite mtags_w; apply (mtags_eqf _ _ F7)).
-  eapply eqf_trans; [apply set_ws_eqf|]. eapply eqf_trans; [apply w_eqf|]. eapply eqf_trans; [apply w_eqf|exact F7]. Qed.
-
-Lemma set_verse_eqf s : verse s = false -> s <| verse := false |> ~= s.
-Proof. intro H. destruct s; cbn in *; subst; reflexivity. Qed.
-Lemma macro_p_plain_eqf pim s : fmt s = FL -> markup_okL (mtags s) -> args s = [] -> verse s = false -> macro_p pim s ~= s.
-Proof. intros Hf Hm Ha Hv. unfold macro_p. destruct (process s); cbn [negb]; [|apply eqf_refl].
-  rewrite Ha, parse_opts_nil. cbn [po_args].
-  set (s2 := if par s then _ else _).
-  assert (F2 : s2 ~= s).
-  { unfold s2. destruct (par s).
-    - unfold close_spanning. destruct (close_foldL (mtags s) (rev (sinline s)) Hm s Hf eq_refl) as [c [Ec _]]. rewrite Ec.
-      set (s1 := process_paragraph (wl c s)).
-      assert (F1 : s1 ~= s) by (eapply eqf_trans; [|apply (wl_eqf c s)]; unfold s1, process_paragraph, wo; destruct (wl c s); reflexivity).
-      clearbody s1. destruct (scope_verse s1 && verse s1).
-      + unfold end_stanza, end_paragraph. rewrite (fmt_eqf _ _ F1), Hf. unfold L.end_stanza, L.end_paragraph.
-        eapply eqf_trans; [apply w_eqf|exact F1].
-      + unfold end_paragraph. rewrite (fmt_eqf _ _ F1), Hf. unfold L.end_paragraph. eapply eqf_trans; [apply w_eqf|exact F1].
-    - unfold end_paragraph. rewrite Hf. unfold L.end_paragraph. eapply eqf_trans; [apply set_par_eqf|apply w_eqf]. }
-  clearbody s2. eapply eqf_trans; [|exact F2]. eapply eqf_trans; [|apply (set_ws_eqf false s2)].
-  apply set_verse_eqf. change (verse (s2 <| ws := false |>)) with (verse s2). rewrite (eqf_get verse _ _ (fun _ => eq_refl) F2). exact Hv. Qed.
 
 (* ---------- the fragment: top-level text blocks, Bm and Em; no user macros, no open #if/#de, no filter region, no blocks ---------- *)
 Record Side (s : st) : Prop := {
   sd_mk : markup_okL (mtags s); sd_inl : inl s = false; sd_asis : asis s = false;
   sd_if : ifdepth s = 0%nat; sd_udef : udef s = None; sd_um : umacros s = []; sd_bf : bf s = None;
   sd_dt : dtags s = []; sd_vs : verse s = false; sd_fmt : fmt s = FL; sd_mode : mode s = 0%nat;
-  sd_np : panicked s = None
+  sd_np : panicked s = None; sd_iv : ivars s = []; sd_pa : params s = [(R "lang", R "en")];
+  sd_lof : lox_lof s = []; sd_lot : lox_lot s = []; sd_lop : lox_lop s = []
 }.
 Lemma Side_eqf a b : a ~= b -> Side b -> Side a.
-Proof. intros H [A1 A3 A4 A5 A6 A7 A8 A9 A10 A11 A12 A13].
+Proof. intros H [A1 A3 A4 A5 A6 A7 A8 A9 A10 A11 A12 A13 A14 A15 A18 A19 A20].
   split; [rewrite (eqf_get mtags _ _ (fun _ => eq_refl) H)|rewrite (eqf_get inl _ _ (fun _ => eq_refl) H)
          |rewrite (eqf_get asis _ _ (fun _ => eq_refl) H)|rewrite (eqf_get ifdepth _ _ (fun _ => eq_refl) H)
          |rewrite (eqf_get udef _ _ (fun _ => eq_refl) H)|rewrite (eqf_get umacros _ _ (fun _ => eq_refl) H)
          |rewrite (eqf_get bf _ _ (fun _ => eq_refl) H)|rewrite (eqf_get dtags _ _ (fun _ => eq_refl) H)
-         |rewrite (eqf_get verse _ _ (fun _ => eq_refl) H)|rewrite (fmt_eqf _ _ H)|rewrite (eqf_get mode _ _ (fun _ => eq_refl) H)|rewrite (eqf_get panicked _ _ (fun _ => eq_refl) H)]; assumption. Qed.
+         |rewrite (eqf_get verse _ _ (fun _ => eq_refl) H)|rewrite (fmt_eqf _ _ H)|rewrite (eqf_get mode _ _ (fun _ => eq_refl) H)|rewrite (eqf_get panicked _ _ (fun _ => eq_refl) H)|rewrite (eqf_get ivars _ _ (fun _ => eq_refl) H)|rewrite (eqf_get params _ _ (fun _ => eq_refl) H)
+         |rewrite (eqf_get lox_lof _ _ (fun _ => eq_refl) H)|rewrite (eqf_get lox_lot _ _ (fun _ => eq_refl) H)|rewrite (eqf_get lox_lop _ _ (fun _ => eq_refl) H)]; assumption. Qed.
 Definition is_bd (sc : scope) : Prop := sc_macro sc = R "Bd".
 Definition P (p : bool) (s : st) : Prop := Side s /\ Forall is_bd (sblock s) /\ process s = p /\ (p = true -> InvL s).
 Definition in_frag (b : block) : Prop :=
-  match b with BText _ _ => True | BMacro n a _ => n = R "Bm" \/ n = R "Em" \/ n = R "Sm" \/ (n = R "P" /\ a = []) \/ n = R "Bd" \/ n = R "Ed" end.
+  match b with BText _ _ => True | BMacro n a _ => n = R "Bm" \/ n = R "Em" \/ n = R "Sm" \/ n = R "P" \/ n = R "Bd" \/ n = R "Ed" end.
 
 Lemma top_app {A} (l : list A) x : top (l ++ [x]) = Some x.
 Proof. unfold top. rewrite map_app. cbn [map]. induction (map Some l) as [|a r IH]; [reflexivity|]. cbn [app]. destruct (r ++ [Some x]) eqn:E; [destruct r; discriminate|]. exact IH. Qed.
@@ -256,9 +62,6 @@ Lemma pop_length {A} (l : list A) : List.length (pop l) = (List.length l - 1)%na
 Proof. unfold pop. induction l as [|a [|b r] IH]; [reflexivity|reflexivity|]. change (removelast (a :: b :: r)) with (a :: removelast (b :: r)).
   cbn [List.length] in *. rewrite IH. lia. Qed.
 Lemma InvL_quiet q s : InvL s -> InvL (s <| quiet := q |>). Proof. intros [A B C]. split; assumption. Qed.
-Lemma set_quiet_eqf q s : s <| quiet := q |> ~= s. Proof. destruct s; reflexivity. Qed.
-Lemma set_macro_eqf q s : s <| macro := q |> ~= s. Proof. destruct s; reflexivity. Qed.
-Lemma set_args_eqf q s : s <| args := q |> ~= s. Proof. destruct s; reflexivity. Qed.
 
 Lemma close_inline_loop_P cur : forall f s, P true s -> (List.length (sinline s) <= f)%nat ->
   P true (close_inline_loop f cur s) /\ (List.length (sinline s) < f -> sinline (close_inline_loop f cur s) = [])%nat.
@@ -327,20 +130,6 @@ Proof. intros (HS & Hsb & Hpr & HI) Hsi. specialize (HI eq_refl). cbv zeta. unfo
   - rewrite (fmt_eqf _ _ F2). exact (sd_fmt _ HS).
 Qed.
 
-Lemma close_inline_loop_eqf cur : forall n s, fmt s = FL -> markup_okL (mtags s) -> close_inline_loop n cur s ~= s.
-Proof. induction n as [|n IH]; intros s Hf Hm; [apply eqf_refl|]. cbn [close_inline_loop]. destruct (top (sinline s)) as [sc|]; [|apply eqf_refl].
-  set (s2 := warn_unclosed sc (s <| macro := cur |>) <| macro := R "Em" |> <| args := tag_args (sc_tag sc) |>).
-  assert (F2 : s2 <| quiet := true |> ~= s).
-  { eapply eqf_trans; [apply set_quiet_eqf|]. unfold s2. eapply eqf_trans; [apply set_args_eqf|]. eapply eqf_trans; [apply set_macro_eqf|].
-    eapply eqf_trans; [apply eqd_eqf, err_eqd|apply set_macro_eqf]. }
-  destruct (macro_em_eqf (s2 <| quiet := true |>) ltac:(rewrite (fmt_eqf _ _ F2); exact Hf) ltac:(rewrite (mtags_eqf _ _ F2); exact Hm)) as [Fem _].
-  set (s3' := macro_em (s2 <| quiet := true |>) <| quiet := quiet s2 |> <| args := [] |>).
-  assert (F3 : s3' ~= s) by (unfold s3'; eapply eqf_trans; [apply set_args_eqf|]; eapply eqf_trans; [apply set_quiet_eqf|]; eapply eqf_trans; [exact Fem|exact F2]).
-  eapply eqf_trans; [apply IH; [rewrite (fmt_eqf _ _ F3); exact Hf|rewrite (mtags_eqf _ _ F3); exact Hm]|exact F3]. Qed.
-Lemma close_unclosed_inline_eqf s : fmt s = FL -> markup_okL (mtags s) -> close_unclosed_inline s ~= s.
-Proof. intros Hf Hm. unfold close_unclosed_inline. destruct (sinline s) as [|x l]; [apply eqf_refl|].
-  eapply eqf_trans; [apply set_args_eqf|]. eapply eqf_trans; [apply set_macro_eqf|].
-  eapply eqf_trans; [apply close_inline_loop_eqf; [exact Hf|exact Hm]|apply set_args_eqf]. Qed.
 
 (* ---------- display blocks ---------- *)
 Lemma P_eqd p a b : a ~~ b -> P p b -> P p a.
@@ -352,7 +141,7 @@ Proof. intro Hc. unfold push_block, mk_scope. destruct (cloc s) as [[[l n] f]|];
 Lemma Forall_pop {A} (Q : A -> Prop) l : Forall Q l -> Forall Q (pop l).
 Proof. unfold pop. induction 1 as [|x l Hx Hl IH]; [constructor|]. destruct l as [|y r]; [constructor|]. change (removelast (x :: y :: r)) with (x :: removelast (y :: r)). constructor; assumption. Qed.
 Lemma Side_set_sblock f s : Side s -> Side (s <| sblock ::= f |>).
-Proof. intros [A1 A3 A4 A5 A6 A7 A8 A9 A10 A11 A12 A13]. split; assumption. Qed.
+Proof. intros [A1 A3 A4 A5 A6 A7 A8 A9 A10 A11 A12 A13 A14 A15 A18 A19 A20]. split; assumption. Qed.
 
 Lemma macro_bd_P p s : P p s -> has_cur s = true -> P p (macro_bd s).
 Proof. intros HP Hc. pose proof HP as (HS & Hsb & Hpr & HI). unfold macro_bd. rewrite (scope_verse_bd _ Hsb).
@@ -481,7 +270,7 @@ Proof. intro Hf. unfold end_par. change (par (s <| sblock ::= pop |>)) with (par
   change (fmt (s <| wout ::= cons (flat (buf s)) |> <| buf := [] |> <| par := false |>)) with (fmt s). rewrite Hf.
   unfold L.end_paragraph, w. cbn. destruct s; reflexivity. Qed.
 
-Lemma macro_ed_P p s : P p s -> P p (macro_ed s) /\ (p = true -> sblock (macro_ed s) = pop (sblock s) /\ (par s = false -> par (macro_ed s) = false)).
+Lemma macro_ed_P p s : P p s -> P p (macro_ed s) /\ (p = true -> sblock (macro_ed s) = pop (sblock s) /\ (par s = false -> par (macro_ed s) = false) /\ (sinline s = [] -> sinline (macro_ed s) = []) /\ has_cur (macro_ed s) = has_cur s).
 Proof. intros HP. pose proof HP as (HS & Hsb & Hpr & HI). unfold macro_ed. destruct (closer_fuel_S s) as [f ->]. rewrite closers_ed, closers_cub.
   unfold ed_body. rewrite (scope_verse_bd _ Hsb), Hpr. destruct p; cbn [negb]; [|split; [exact HP|discriminate]].
   pose proof (parse_opts_eqd specOptEd (args s) s) as E1. destruct (parse_opts specOptEd (args s) s) as [o s1]. cbn [snd] in E1.
@@ -492,7 +281,9 @@ Proof. intros HP. pose proof HP as (HS & Hsb & Hpr & HI). unfold macro_ed. destr
   assert (Hsb2 : sblock s2 = sblock s) by (apply (eqd_get sblock _ _ (fun _ => eq_refl) E2)).
   destruct (top (sblock s2)) as [sc|] eqn:Etop.
   2:{ split; [apply (P_eqd _ _ _ (err_eqd _ _) HP2)|]. intros _. split; [rewrite (eqd_get sblock _ _ (fun _ => eq_refl) (err_eqd _ s2)), <- Hsb2, (top_none _ Etop); reflexivity|].
-      rewrite (eqd_get par _ _ (fun _ => eq_refl) (err_eqd _ s2)), (eqd_get par _ _ (fun _ => eq_refl) E2). exact (fun H => H). }
+      split; [rewrite (eqd_get par _ _ (fun _ => eq_refl) (err_eqd _ s2)), (eqd_get par _ _ (fun _ => eq_refl) E2); exact (fun H => H)|].
+      split; [rewrite (eqd_get sinline _ _ (fun _ => eq_refl) (err_eqd _ s2)), (eqd_get sinline _ _ (fun _ => eq_refl) E2); exact (fun H => H)|].
+      rewrite (eqd_get has_cur _ _ (fun _ => eq_refl) (err_eqd _ s2)). apply (eqd_get has_cur _ _ (fun _ => eq_refl) E2). }
   set (s3 := match opt "t" o with Some t => _ | None => _ end).
   assert (E3 : s3 ~~ s2).
   { unfold s3. destruct (opt "t" o) as [t|].
@@ -520,6 +311,7 @@ Proof. intros HP. pose proof HP as (HS & Hsb & Hpr & HI). unfold macro_ed. destr
       assert (F3 : s3' ~= s) by (unfold s3'; eapply eqf_trans; [apply set_args_eqf|]; eapply eqf_trans; [apply set_quiet_eqf|]; eapply eqf_trans; [exact Fem|exact F2]).
       rewrite IH; [apply (eqf_get sblock _ _ (fun _ => eq_refl) F3)|rewrite (fmt_eqf _ _ F3); exact Hf|rewrite (mtags_eqf _ _ F3); exact Hm]. }
     set (sx := s3 <| args := [] |>). change (sblock s3) with (sblock sx). apply G; [exact (sd_fmt _ (proj1 HP3))|exact (sd_mk _ (proj1 HP3))]. }
+  assert (Hc4 : has_cur (close_unclosed_inline s3) = has_cur s3) by (apply (eqf_get has_cur _ _ (fun _ => eq_refl)), close_unclosed_inline_eqf; [exact (sd_fmt _ (proj1 HP3))|exact (sd_mk _ (proj1 HP3))]).
   set (s4 := close_unclosed_inline s3) in *. clearbody s4.
   rewrite (cub_bd _ _ s4 (proj1 (proj2 HP4))).
   rewrite (end_par_pop_comm s4 (sd_fmt _ (proj1 HP4))).
@@ -535,15 +327,66 @@ Proof. intros HP. pose proof HP as (HS & Hsb & Hpr & HI). unfold macro_ed. destr
   rewrite Ex.
   assert (F8 : s7 <| ws := false |> ~= s7) by apply set_ws_eqf.
   split; [|intros _; split; [rewrite (eqf_get sblock _ _ (fun _ => eq_refl) F8); unfold s7; cbn; rewrite (eqf_get sblock _ _ (fun _ => eq_refl) F6), Hsb4, Hsb3, Hsb2; reflexivity|
-    intros _; exact Hp6]].
+    split; [intros _; exact Hp6|split; [intros _; exact Hsi6|
+    rewrite (eqf_get has_cur _ _ (fun _ => eq_refl) F8); change (has_cur s7) with (has_cur s6); rewrite (eqf_get has_cur _ _ (fun _ => eq_refl) F6), Hc4, (eqd_get has_cur _ _ (fun _ => eq_refl) E3); apply (eqd_get has_cur _ _ (fun _ => eq_refl) E2)]]]].
   split; [apply (Side_eqf _ _ F8 HS7)|].
   split; [rewrite (eqf_get sblock _ _ (fun _ => eq_refl) F8); apply Forall_pop; exact Hsb6|].
   split; [rewrite (eqf_get process _ _ (fun _ => eq_refl) F8); exact Hpr6|].
   intros _. destruct HI6 as [A B C]. split; [exact A|exact B|exact C].
 Qed.
 
+(* ---------- P with or without a title ---------- *)
+Lemma macro_p_P p s : P p s -> has_cur s = true -> P p (macro_p pim s).
+Proof. intros HP Hc. pose proof HP as (HS & Hsb & Hpr & HI). unfold macro_p. rewrite Hpr. destruct p; cbn [negb]; [|exact HP].
+  pose proof (parse_opts_eqd specOptNone (args s) s) as E1. destruct (parse_opts specOptNone (args s) s) as [o s1]. cbn [snd] in E1.
+  pose proof (P_eqd _ _ _ E1 HP) as (HS1 & Hsb1 & Hpr1 & HI1). specialize (HI1 eq_refl).
+  pose proof (InvL_p_break s1 HI1 (sd_mk _ HS1) (scope_verse_bd _ Hsb1)) as H2. rewrite (sd_vs _ HS1) in H2.
+  pose proof (p_break_eqf s1 (sd_fmt _ HS1) (sd_mk _ HS1)) as F2.
+  unfold p_break in H2, F2. cbv zeta in H2, F2.
+  match type of F2 with ?x ~= _ => set (s2 := x) in * end. clearbody s2. destruct H2 as [HI2 Hv2].
+  pose proof (Side_eqf _ _ F2 HS1) as HS2.
+  assert (Hp2 : par s2 = false) by (exact (f_equal (fun v => fst (fst (fst (snd v)))) Hv2)).
+  assert (Hvs2 : verse s2 = false) by (exact (f_equal (fun v => snd (fst (fst (snd v)))) Hv2)).
+  assert (Hsb2 : sblock s2 = sblock s1) by (apply (eqf_get sblock _ _ (fun _ => eq_refl) F2)).
+  destruct (po_args o) as [|a0 al].
+  - assert (F : s2 <| ws := false |> <| verse := false |> ~= s2) by (eapply eqf_trans; [apply set_verse_eqf; exact Hvs2|apply set_ws_eqf]).
+    split; [apply (Side_eqf _ _ F HS2)|]. split; [rewrite (eqf_get sblock _ _ (fun _ => eq_refl) F), Hsb2; exact Hsb1|].
+    split; [rewrite (eqf_get process _ _ (fun _ => eq_refl) F), (eqf_get process _ _ (fun _ => eq_refl) F2); exact Hpr1|]. intros _.
+    apply (InvL_regs s2); try reflexivity; [|exact HI2]. unfold view. cbn. rewrite Hvs2. reflexivity.
+  - set (s2p := s2 <| par := true |>).
+    assert (F2p : s2p ~= s2) by apply set_par_eqf.
+    pose proof (Side_eqf _ _ F2p HS2) as HS2p.
+    assert (Hc2p : has_cur s2p = true).
+    { rewrite (eqf_get has_cur _ _ (fun _ => eq_refl) F2p), (eqf_get has_cur _ _ (fun _ => eq_refl) F2), (eqd_get has_cur _ _ (fun _ => eq_refl) E1). exact Hc. }
+    destruct (pim_spec (a0 :: al) s2p (sd_fmt _ HS2p) (sd_asis _ HS2p) (sd_inl _ HS2p) (sd_mk _ HS2p) (sd_bf _ HS2p) Hc2p) as (Ht & F3 & Ho3 & Hv3 & Hb3).
+    destruct (pim (a0 :: al) s2p) as [title s3]. cbn [fst snd] in *.
+    pose proof (Side_eqf _ _ F3 HS2p) as HS3.
+    unfold paragraph_title. rewrite (sd_fmt _ HS3). unfold L.paragraph_title.
+    set (pt := R "\paragraph{" ++ title ++ R "}" ++ NLs).
+    assert (Hrpt : forall d, runL pt (LTxt, d) = (LTxt, d)) by (intro d; apply (runL_ptitle title Ht)). clearbody pt.
+    assert (Hp3 : par s3 = true) by (exact (f_equal (fun v => fst (fst (fst (snd v)))) Hv3)).
+    unfold reopen_spanning.
+    destruct (reopen_foldL (mtags (w pt s3)) (sinline (w pt s3)) ltac:(rewrite mtags_w; exact (sd_mk _ HS3)) (w pt s3) ltac:(rewrite Inv.fmt_w; exact (sd_fmt _ HS3)) eq_refl) as [c [Ec Hcx]].
+    rewrite Ec.
+    set (sf := wl c (w pt s3)).
+    assert (Ff : sf ~= s2) by (unfold sf; eapply eqf_trans; [apply wl_eqf|]; eapply eqf_trans; [apply w_eqf|]; eapply eqf_trans; [exact F3|exact F2p]).
+    assert (Hvf : view sf = view s2p) by (unfold sf; rewrite view_wl, view_w; exact Hv3).
+    assert (Hvsf : verse sf = false) by (rewrite (eqf_get verse _ _ (fun _ => eq_refl) Ff); exact Hvs2).
+    assert (F : sf <| ws := false |> <| verse := false |> ~= s2) by (eapply eqf_trans; [apply set_verse_eqf; exact Hvsf|]; eapply eqf_trans; [apply set_ws_eqf|exact Ff]).
+    split; [apply (Side_eqf _ _ F HS2)|]. split; [rewrite (eqf_get sblock _ _ (fun _ => eq_refl) F), Hsb2; exact Hsb1|].
+    split; [rewrite (eqf_get process _ _ (fun _ => eq_refl) F), (eqf_get process _ _ (fun _ => eq_refl) F2); exact Hpr1|]. intros _.
+    apply (InvL_regs sf); try reflexivity; [unfold view; cbn; rewrite Hvsf; reflexivity|].
+    apply (InvL_step s2 _ (pt ++ flat c) HI2).
+    + unfold sf. rewrite out_wl by (rewrite par_w, Hp3; discriminate). rewrite out_w by (rewrite Hp3; discriminate). rewrite Ho3, <- app_assoc. reflexivity.
+    + unfold depthL. rewrite Hvf, Hv2. unfold s2p, view, depth_v. cbn [par sinline]. cbn.
+      assert (Esi : sinline (w pt s3) = sinline s2) by (change (sinline (w pt s3)) with (let '(_, _, _, (_, _, si, _)) := view (w pt s3) in si); rewrite view_w, Hv3; reflexivity).
+      rewrite runL_app, Hrpt, Hcx, Esi, Nat.add_0_r. reflexivity.
+    + unfold sf. rewrite par_wl, par_w, Hp3. discriminate.
+    + rewrite (fmt_eqf _ _ Ff). exact (sd_fmt _ HS2).
+Qed.
+
 Lemma Side_set_regs b s : Side s -> Side (set_regs b s).
-Proof. intros [A1 A3 A4 A5 A6 A7 A8 A9 A10 A11 A12 A13]. destruct b; split; assumption. Qed.
+Proof. intros [A1 A3 A4 A5 A6 A7 A8 A9 A10 A11 A12 A13 A14 A15 A18 A19 A20]. destruct b; split; assumption. Qed.
 Lemma P_set_regs p b s : P p s -> P p (set_regs b s) /\ has_cur (set_regs b s) = true.
 Proof. intros (HS & Hsb & Hpr & HI). split; [|destruct b; reflexivity].
   split; [apply Side_set_regs; exact HS|]. split; [destruct b; exact Hsb|]. split; [destruct b; exact Hpr|].
@@ -561,13 +404,13 @@ Proof. intros Hb HP. unfold step. cbv zeta.
   set (s0 := set_regs b s) in *.
   pose proof HP0 as (HS & Hsb & Hpr & HI). pose proof HS as HS0. pose proof Hsb as Hsb0. pose proof Hpr as Hpr0. pose proof HI as HI0.
   assert (F0 : s0 ~= s0) by apply eqf_refl.
-  destruct HS0 as [A1 A3 A4 A5 A6 A7 A8 A9 A10 A11 A12 A13].
+  destruct HS0 as [A1 A3 A4 A5 A6 A7 A8 A9 A10 A11 A12 A13 A14 A15 A18 A19 A20].
   rewrite A5, A6. cbn [Nat.ltb Nat.leb].
   assert (Hv : par s0 = false -> scope_verse s0 = false) by (intros _; apply scope_verse_bd; exact Hsb0).
   destruct b as [n a l|t l].
   - rewrite A3, A7. cbn [assoc].
     assert (Ebf : bf_check n s0 = s0) by (unfold bf_check; rewrite A8; reflexivity).
-    destruct Hb as [-> | [-> | [-> | [[-> ->] | [-> | ->]]]]].
+    destruct Hb as [-> | [-> | [-> | [-> | [-> | ->]]]]].
     + change (control_builtin pb (R "Bm")) with (@None (cst -> cst)). change (builtin (R "Bm")) with (Some macro_bm). cbn [snd]. rewrite Ebf.
       pose proof (macro_bm_eqf s0 A11 A1 Hc0) as F1.
       assert (F : after_handler (R "Bm") (macro_bm s0) ~= s0) by (eapply eqf_trans; [apply after_handler_eqf|exact F1]).
@@ -587,12 +430,7 @@ Proof. intros Hb HP. unfold step. cbv zeta.
       intro Hp. pose proof (InvL_macro_sm s0 (HI0 Hp) A1 (eq_trans Hpr0 Hp) A3 Hv) as H.
       apply (InvL_regs (macro_sm s0)); [..|exact H]; unfold after_handler; destruct (elided (macro_sm s0)); reflexivity.
     + change (control_builtin pb (R "P")) with (@None (cst -> cst)). change (builtin (R "P")) with (Some (macro_p pim)). cbn [snd]. rewrite Ebf.
-      assert (Ha0 : args s0 = []) by reflexivity.
-      pose proof (macro_p_plain_eqf pim s0 A11 A1 Ha0 A10) as F1.
-      assert (F : after_handler (R "P") (macro_p pim s0) ~= s0) by (eapply eqf_trans; [apply after_handler_eqf|exact F1]).
-      split; [apply (Side_eqf _ _ F HS)|]. split; [rewrite (eqf_get sblock _ _ (fun _ => eq_refl) F); exact Hsb|]. split; [rewrite (eqf_get process _ _ (fun _ => eq_refl) F); exact Hpr|].
-      intro Hp. pose proof (InvL_macro_p_plain pim s0 (HI0 Hp) A1 (eq_trans Hpr0 Hp) Ha0 (scope_verse_bd _ Hsb0)) as H.
-      apply (InvL_regs (macro_p pim s0)); [..|exact H]; unfold after_handler; destruct (elided (macro_p pim s0)); reflexivity.
+      apply P_after_handler, macro_p_P; [exact HP0|exact Hc0].
     + change (control_builtin pb (R "Bd")) with (@None (cst -> cst)). change (builtin (R "Bd")) with (Some macro_bd). cbn [snd]. rewrite Ebf.
       apply P_after_handler, macro_bd_P; [exact HP0|exact Hc0].
     + change (control_builtin pb (R "Ed")) with (@None (cst -> cst)). change (builtin (R "Ed")) with (Some macro_ed). cbn [snd]. rewrite Ebf.
@@ -615,10 +453,11 @@ Lemma P_same p a b : a ~= b -> out a = out b -> view a = view b -> buf a = buf b
 Proof. intros F Ho Hv Hb (HS & Hsb & Hpr & HI). split; [apply (Side_eqf _ _ F HS)|]. split; [rewrite (eqf_get sblock _ _ (fun _ => eq_refl) F); exact Hsb|].
   split; [rewrite (eqf_get process _ _ (fun _ => eq_refl) F); exact Hpr|]. intro Hp. apply (InvL_regs b); [exact Ho|exact Hv|exact Hb|apply (eqf_get format _ _ (fun _ => eq_refl) F)|exact (HI Hp)]. Qed.
 
-Lemma close_block_loop_P cur : forall f s, P true s -> par s = false -> (List.length (sblock s) <= f)%nat ->
-  P true (close_block_loop f cur s) /\ par (close_block_loop f cur s) = false /\ (List.length (sblock s) < f -> sblock (close_block_loop f cur s) = [])%nat.
-Proof. induction f as [|f IH]; intros s HP Hp Hl; cbn [close_block_loop]; [split; [exact HP|split; [exact Hp|lia]]|].
-  destruct (top (sblock s)) as [sc|] eqn:Etop; [|split; [exact HP|split; [exact Hp|intros _; apply top_none; exact Etop]]].
+Lemma close_block_loop_P cur : forall f s, P true s -> (List.length (sblock s) <= f)%nat ->
+  P true (close_block_loop f cur s) /\ (par s = false -> par (close_block_loop f cur s) = false) /\
+  (sinline s = [] -> sinline (close_block_loop f cur s) = []) /\ has_cur (close_block_loop f cur s) = has_cur s /\ (List.length (sblock s) < f -> sblock (close_block_loop f cur s) = [])%nat.
+Proof. induction f as [|f IH]; intros s HP Hl; cbn [close_block_loop]; [split; [exact HP|split; [exact (fun H => H)|split; [exact (fun H => H)|split; [reflexivity|lia]]]]|].
+  destruct (top (sblock s)) as [sc|] eqn:Etop; [|split; [exact HP|split; [exact (fun H => H)|split; [exact (fun H => H)|split; [reflexivity|intros _; apply top_none; exact Etop]]]]].
   assert (Hbd : is_bd sc) by (destruct HP as (_ & Hsb & _); rewrite Forall_forall in Hsb; apply Hsb, (top_in _ _ Etop)).
   unfold is_bd in Hbd. rewrite Hbd. change (str_eqb (R "Bd") (R "Bl") || str_eqb (R "Bd") (R "It")) with false. cbv iota.
   set (s2 := warn_unclosed sc (s <| macro := cur |>) <| macro := R "Ed" |> <| args := tag_args (sc_tag sc) |>).
@@ -627,42 +466,48 @@ Proof. induction f as [|f IH]; intros s HP Hp Hl; cbn [close_block_loop]; [split
   { apply (P_same true _ (warn_unclosed sc (s <| macro := cur |>))); [unfold s2q, s2; destruct (warn_unclosed sc (s <| macro := cur |>)); reflexivity|reflexivity|reflexivity|reflexivity|].
     unfold warn_unclosed. apply (P_eqd _ _ _ (err_eqd _ _)). apply (P_same true _ s); [destruct s; reflexivity|reflexivity|reflexivity|reflexivity|exact HP]. }
   assert (Hsb2q : sblock s2q = sblock s) by (unfold s2q, s2, warn_unclosed; cbn; rewrite (eqd_get sblock _ _ (fun _ => eq_refl) (err_eqd _ _)); reflexivity).
-  assert (Hp2q : par s2q = false) by (unfold s2q, s2, warn_unclosed; cbn; rewrite (eqd_get par _ _ (fun _ => eq_refl) (err_eqd _ _)); exact Hp).
-  destruct (macro_ed_P true s2q HP2q) as [HPe He]. destruct (He eq_refl) as [Hpop Hpar]. specialize (Hpar Hp2q).
+  assert (Hp2q : par s2q = par s) by (unfold s2q, s2, warn_unclosed; cbn; rewrite (eqd_get par _ _ (fun _ => eq_refl) (err_eqd _ _)); reflexivity).
+  assert (Hsi2q : sinline s2q = sinline s) by (unfold s2q, s2, warn_unclosed; cbn; rewrite (eqd_get sinline _ _ (fun _ => eq_refl) (err_eqd _ _)); reflexivity).
+  assert (Hhc2q : has_cur s2q = has_cur s) by (unfold s2q, s2, warn_unclosed; cbn; rewrite (eqd_get has_cur _ _ (fun _ => eq_refl) (err_eqd _ _)); reflexivity).
+  destruct (macro_ed_P true s2q HP2q) as [HPe He]. destruct (He eq_refl) as (Hpop & Hpar & Hsin & Hhc).
   set (s3 := macro_ed s2q <| quiet := quiet s2 |> <| args := [] |>).
   assert (HP3 : P true s3) by (apply (P_same true _ (macro_ed s2q)); [unfold s3; destruct (macro_ed s2q); reflexivity|reflexivity|reflexivity|reflexivity|exact HPe]).
   assert (Hsb3 : sblock s3 = pop (sblock s)) by (unfold s3; cbn; rewrite Hpop, Hsb2q; reflexivity).
-  assert (Hp3 : par s3 = false) by exact Hpar.
   assert (Hl3 : (List.length (sblock s3) <= f)%nat) by (rewrite Hsb3, pop_length; lia).
-  destruct (IH s3 HP3 Hp3 Hl3) as (H1 & H2 & H3). split; [exact H1|]. split; [exact H2|]. intro Hlt. apply H3. rewrite Hsb3, pop_length.
+  destruct (IH s3 HP3 Hl3) as (H1 & H2 & H2' & H2h & H3). split; [exact H1|].
+  split; [intro Hp; apply H2; apply Hpar; rewrite Hp2q; exact Hp|].
+  split; [intro Hsi; apply H2'; apply Hsin; rewrite Hsi2q; exact Hsi|].
+  split; [rewrite H2h; unfold s3; cbn; rewrite Hhc; exact Hhc2q|].
+  intro Hlt. apply H3. rewrite Hsb3, pop_length.
   assert (List.length (sblock s) <> 0)%nat by (destruct (sblock s); [discriminate|cbn; lia]). lia.
 Qed.
 
-Lemma close_unclosed_block_P s : P true s -> par s = false ->
-  P true (close_unclosed_block s) /\ par (close_unclosed_block s) = false /\ sblock (close_unclosed_block s) = [].
-Proof. intros HP Hp. unfold close_unclosed_block. destruct (sblock s) as [|sc l] eqn:E; [split; [exact HP|split; [exact Hp|exact E]]|].
+Lemma close_unclosed_block_P s : P true s ->
+  P true (close_unclosed_block s) /\ (par s = false -> par (close_unclosed_block s) = false) /\
+  (sinline s = [] -> sinline (close_unclosed_block s) = []) /\ has_cur (close_unclosed_block s) = has_cur s /\ sblock (close_unclosed_block s) = [].
+Proof. intros HP. unfold close_unclosed_block. destruct (sblock s) as [|sc l] eqn:E; [split; [exact HP|split; [exact (fun H => H)|split; [exact (fun H => H)|split; [reflexivity|exact E]]]]|].
   set (s0 := s <| args := [] |>).
   assert (HP0 : P true s0) by (apply (P_same true _ s); [destruct s; reflexivity|reflexivity|reflexivity|reflexivity|exact HP]).
   assert (Hl : (List.length (sblock s0) <= S (S (List.length (sc :: l))))%nat) by (change (sblock s0) with (sblock s); rewrite E; lia).
-  destruct (close_block_loop_P (macro s) (S (S (List.length (sc :: l)))) s0 HP0 Hp Hl) as (H1 & H2 & H3).
+  destruct (close_block_loop_P (macro s) (S (S (List.length (sc :: l)))) s0 HP0 Hl) as (H1 & H2 & H2' & H2h & H3).
   set (r := close_block_loop (S (S (List.length (sc :: l)))) (macro s) s0) in *.
-  split; [apply (P_same true _ r); [destruct r; reflexivity|reflexivity|reflexivity|reflexivity|exact H1]|]. split; [exact H2|].
+  split; [apply (P_same true _ r); [destruct r; reflexivity|reflexivity|reflexivity|reflexivity|exact H1]|]. split; [exact H2|]. split; [exact H2'|]. split; [exact H2h|].
   change (sblock (r <| macro := macro s |> <| args := args s |>)) with (sblock r). apply H3. change (sblock s0) with (sblock s). rewrite E. lia.
 Qed.
 
-Lemma depth_closed s : par s = false -> depthL s = 0%nat.
-Proof. intros Hp. unfold depthL, view, depth_v. rewrite Hp. reflexivity. Qed.
+Lemma elems_closed s : sblock s = [] -> par s = false -> elems s = [].
+Proof. intros Hb Hp. unfold elems, view, elems_v. rewrite Hb, Hp. reflexivity. Qed.
 
 Lemma eof_sweep_P s : P true s -> let s' := eof_sweep s in Side s' /\ InvL s' /\ par s' = false /\ sblock s' = [].
 Proof. intros HP. cbv zeta. unfold eof_sweep.
   set (s3 := s <| has_cur := false |> <| macro := R "End Of File" |>).
   assert (HP3 : P true s3).
-  { destruct HP as ([A1 A3 A4 A5 A6 A7 A8 A9 A10 A11 A12 A13] & Hsb & Hpr & HI). split; [split; assumption|]. split; [exact Hsb|]. split; [exact Hpr|].
+  { destruct HP as ([A1 A3 A4 A5 A6 A7 A8 A9 A10 A11 A12 A13 A14 A15 A18 A19 A20] & Hsb & Hpr & HI). split; [split; assumption|]. split; [exact Hsb|]. split; [exact Hpr|].
     intro Hp. apply (InvL_regs s); try reflexivity. exact (HI Hp). }
   destruct (close_unclosed_inline_P s3 HP3) as [HPa Hsia].
   destruct (end_par_P _ HPa Hsia) as (HPb & Hpb & _). cbv zeta in HPb, Hpb.
   set (sb := end_par PNormal (close_unclosed_inline s3)) in *. clearbody sb.
-  destruct (close_unclosed_block_P sb HPb Hpb) as (HPc & Hpc & Hsbc).
+  destruct (close_unclosed_block_P sb HPb) as (HPc & Hpc' & _ & _ & Hsbc). pose proof (Hpc' Hpb) as Hpc.
   set (sc := close_unclosed_block sb) in *. clearbody sc.
   destruct HPc as (HSc & _ & _ & HIc). specialize (HIc eq_refl).
   set (s5 := fold_left (fun a x => warn_unclosed x a) (rev (sif sc)) sc).
@@ -673,76 +518,3 @@ Proof. intros HP. cbv zeta. unfold eof_sweep.
   split; [rewrite (eqd_get par _ _ (fun _ => eq_refl) E5); exact Hpc|rewrite (eqd_get sblock _ _ (fun _ => eq_refl) E5); exact Hsbc].
 Qed.
 
-(* ---------- the two passes ---------- *)
-Lemma P_start wd main : P false (start_st (R "latex") 0 wd main).
-Proof. split; [split; try reflexivity; exact markup_okL_nil|]. split; [constructor|]. split; [reflexivity|discriminate]. Qed.
-
-Lemma P_reset s : Side s -> P true (exp_reset (reset s)).
-Proof. intro HS.
-  assert (Hf : fmt (reset s) = FL) by (unfold fmt; change (format (reset s)) with (format s); exact (sd_fmt _ HS)).
-  assert (Hm : mode (reset s) = 0%nat) by exact (sd_mode _ HS).
-  unfold exp_reset. rewrite Hf.
-  split; [split; try reflexivity; [exact (sd_mk _ HS)|exact (sd_dt _ HS)|exact Hf|exact Hm]|]. split; [constructor|]. split; [reflexivity|]. intros _.
-  split; [reflexivity|reflexivity|exact Hf]. Qed.
-
-Theorem C04_blocks_balanced fuel wd main bs : Forall in_frag bs ->
-  let s := snd (compile (S fuel) (R "latex") 0 wd main bs) in
-  panicked s = None /\
-  runL (flat (wout s)) (LTxt, 0%nat) = (LTxt, 0%nat) /\ In (curfile s, flat (wout s)) (files s).
-Proof. intros Hbs. unfold compile.
-  pose proof (frag_invariant false fuel bs (start_ctl wd main, start_st (R "latex") 0 wd main) Hbs (P_start wd main)) as H1.
-  destruct (run_blocks (S fuel) bs (start_ctl wd main, start_st (R "latex") 0 wd main)) as [c1 s1]. cbn [snd] in H1.
-  rewrite (sd_np _ (proj1 H1)).
-  pose proof (frag_invariant true fuel bs (set_budget 0 false c1, exp_reset (reset s1)) Hbs (P_reset s1 (proj1 H1))) as H2.
-  destruct (run_blocks (S fuel) bs (set_budget 0 false c1, exp_reset (reset s1))) as [c2 s2]. cbn [snd] in H2.
-  rewrite (sd_np _ (proj1 H2)).
-  destruct (eof_sweep_P s2 H2) as (HS & HI & Hp & Hsb). cbv zeta in HS, HI, Hp, Hsb. set (s7 := eof_sweep s2) in *. clearbody s7.
-  assert (Epost : exp_post s7 = s7) by (unfold exp_post; rewrite (sd_fmt _ HS); reflexivity). rewrite Epost.
-  cbn [snd]. change (wout (s7 <| files ::= fun l => l ++ [(curfile s7, flat (wout s7))] |>)) with (wout s7).
-  split; [exact (sd_np _ HS)|]. split.
-  - destruct HI as [A B C]. unfold out in A. rewrite (B Hp), flat_nil, app_nil_r, (depth_closed _ Hp) in A. exact A.
-  - change (files (s7 <| files ::= fun l => l ++ [(curfile s7, flat (wout s7))] |>)) with (files s7 ++ [(curfile s7, flat (wout s7))]).
-    apply in_or_app. right. left. reflexivity.
-Qed.
-Print Assumptions C04_blocks_balanced.
-
-
-
-(* non-vacuity and agreement with computation on a concrete document *)
-Definition ex_src := runes "a & b
-.Bd
-.Bm
-c <d>
-.Bd -id x
-nested
-.Em !
-.P
-new paragraph
-.Sm strong <t> .
-.Ed
-e
-.Bm
-left open
-".
-Definition ex_world := mkWorld [] [(R "m.frundis", ex_src)] [] false [].
-Example blocksL_example :
-  Forall in_frag (fst (parse ex_src)) /\
-  (let s := compile_source (R "latex") 0 ex_world (R "m.frundis") in
-   panicked s = None /\ flat (wout s) = runes "a \& b
-
-\emph{c <d>}
-
-\hypertarget{x}{}
-nested
-
-new paragraph
-\emph{strong <t>}.
-
-e
-\emph{left open}
-
-").
-Proof. split; [|vm_compute; split; reflexivity].
-  vm_compute.
-  repeat (apply Forall_cons; [first [exact I | left; reflexivity | right; left; reflexivity | right; right; left; reflexivity | right; right; right; left; split; reflexivity
-    | right; right; right; right; left; reflexivity | right; right; right; right; right; reflexivity]|]). apply Forall_nil. Qed.
